@@ -38,6 +38,9 @@ def traceWellFormed : List AEv → List Nat → Bool
   | .fail _ _ :: t, live => traceWellFormed t live
   | .free id :: t, live => live.contains id && traceWellFormed t (live.erase id)
 
+/-- the default allocator: nothing fails -/
+def noFail : Nat → Bool := fun _ => false
+
 def showEv : AEv → String
   | .alloc id b => s!"a{id}:{b}"
   | .fail id b => s!"F{id}:{b}"
